@@ -199,6 +199,20 @@ def _shard_inner(prop_id, tier, seed, shard, nshards, repo, scale, tmax):
                                        "fails": [f.as_dict() for f in last["fails"]],
                                        "origin": "hypothesis-flaky"})
             break
+        except (sandbox.HarnessError, KeyboardInterrupt, SystemExit):
+            raise
+        except Exception as e:
+            # an error inside the library while it was SHRINKING a failing case it had already
+            # found (seen: ValueError in choice_to_index): the unshrunk failure stands
+            if not last["fails"] or "hypothesis" not in traceback.format_exc():
+                raise
+            st["errors"].append("shrinker error (%s: %s); unshrunk failing case kept" % (type(e).__name__, e))
+            for f in last["fails"]:
+                session_buckets.add(f.bucket())
+            st["failures"].append({"case": last["case"],
+                                   "fails": [f.as_dict() for f in last["fails"]],
+                                   "origin": "hypothesis-unshrunk"})
+            break
     sandbox.destroy_world()
     st["keys"] = sorted(st["keys"])
     st["classes"] = dict(st["classes"])
